@@ -407,7 +407,9 @@ func writeUnionSerializers(w *formatting.IndentedWriter, env *dsl.Environment) {
 }
 
 func writeNamespaceDefinitions(w *formatting.IndentedWriter, ns *dsl.Namespace) {
-	if len(ns.TypeDefinitions) > 0 {
+	// Definitions that changed since a previous version need their compatibility
+	// serializers even if the current model has no type definitions left
+	if len(ns.TypeDefinitions) > 0 || len(ns.DefinitionChanges) > 0 {
 		w.WriteStringln("namespace {")
 		for _, typeDef := range ns.TypeDefinitions {
 			writeSerializers(w, typeDef)
